@@ -92,12 +92,35 @@ def gen_chain(rng, n, clean_p=0.78):
             else:
                 a = rng.randint(0, cur - 1)
                 ix = {"t": "range", "a": a, "b": rng.randint(-cur - 1, a - 1), "s": rng.pick([-1, -1, -2])}
+        if rng.chance(0.12):
+            ix = boundary_index(rng, cur)
         chain.append(ix)
         try:
             cur = len(R.ref_positions(ix, cur))
         except R.RefErr:
             break
     return chain
+
+
+def boundary_index(rng, n):
+    """index expressions AT the boundaries of the row axis: first / last / one-past row, the whole axis, nothing, a
+    single True in a mask, slices that end exactly at / one past the end"""
+    opts = [
+        {"t": "int", "i": -n}, {"t": "int", "i": n - 1}, {"t": "int", "i": n}, {"t": "int", "i": -n - 1},
+        {"t": "slice", "a": 0, "b": n, "s": None}, {"t": "slice", "a": None, "b": n + 1, "s": None},
+        {"t": "slice", "a": n, "b": None, "s": None}, {"t": "slice", "a": n - 1, "b": n, "s": 1}, {"t": "slice", "a": -1, "b": None, "s": None},
+        {"t": "slice", "a": -n, "b": None, "s": 2}, {"t": "slice", "a": 0, "b": 0, "s": None},
+        {"t": "list", "l": [-n, n - 1]}, {"t": "tensor", "l": [n - 1, -n]}, {"t": "list", "l": [n]}, {"t": "tensor", "l": [-n - 1]},
+        {"t": "list", "l": list(range(n))}, {"t": "tensor", "l": list(range(n - 1, -1, -1))}, {"t": "list", "l": []}, {"t": "tensor", "l": []},
+        {"t": "range", "a": 0, "b": n, "s": 1}, {"t": "range", "a": n - 1, "b": -1, "s": -1}, {"t": "range", "a": 0, "b": n + 1, "s": 1},
+        {"t": "range", "a": -n, "b": 0, "s": 1}, {"t": "range", "a": 0, "b": 0, "s": 1},
+        {"t": "mask", "m": [True] * n}, {"t": "mask", "m": [False] * n},
+        {"t": "mask", "m": [i == n - 1 for i in range(n)]}, {"t": "mask", "m": [i == 0 for i in range(n)]},
+        {"t": "mask", "m": [True] * (n + 1)},
+    ]
+    ix = dict(rng.pick(opts))
+    ix["boundary"] = True
+    return ix
 
 
 def gen_case(rng, tier):
@@ -478,7 +501,8 @@ def stats(cases, obss):
     d = {"total": 0, "kinds": {}, "stypes": {}, "with_y": 0, "explicit_num_rows": 0, "featureless": 0, "rows": {},
          "index_kinds": {}, "chain_len": {}, "error_cases": 0, "through_empty": 0, "overshooting_slices": 0,
          "shared_index_cases": 0, "second_frame_cases": 0, "ctor_forms": {}, "via": {}, "call": {},
-         "index_repr": {"int32": 0, "strided": 0, "int64-contiguous": 0}, "wrapping_ranges": 0}
+         "index_repr": {"int32": 0, "strided": 0, "int64-contiguous": 0}, "wrapping_ranges": 0,
+         "boundary_indices": 0, "single_true_masks": 0, "one_row_frames_selected": 0, "single_column_stypes": 0}
     for c, o in zip(cases, obss):
         if c is None or not isinstance(o, dict):
             continue
@@ -491,7 +515,11 @@ def stats(cases, obss):
         d["shared_index_cases"] += bool(c.get("shared_index"))
         for k, v in (("ctor_forms", fr.get("ctor", "pos")), ("via", str(c.get("via"))), ("call", c.get("call", "[]"))):
             d[k][v] = d[k].get(v, 0) + 1
+        d["one_row_frames_selected"] += fr["n"] == 1 and bool(c["chain"])
+        d["single_column_stypes"] += any(len(f["names"]) == 1 for f in fr["feats"])
         for ix in c["chain"]:
+            d["boundary_indices"] += bool(ix.get("boundary"))
+            d["single_true_masks"] += ix["t"] == "mask" and sum(ix["m"]) == 1
             if ix["t"] == "range":
                 ents = list(range(ix["a"], ix["b"], ix["s"]))
                 d["wrapping_ranges"] += bool(ents) and min(ents) < 0 <= max(ents)
@@ -539,6 +567,10 @@ def sanity(cases, obss):
                     ("overshooting_slices", "no overshooting slice"),
                     ("shared_index_cases", "no case reuses one index object"),
                     ("wrapping_ranges", "no range running from negative to non-negative entries"),
+                    ("boundary_indices", "no index expression at a boundary of the row axis"),
+                    ("single_true_masks", "no mask with exactly one True"),
+                    ("one_row_frames_selected", "no selection from a one-row frame"),
+                    ("single_column_stypes", "no stype with a single column"),
                     ("second_frame_cases", "no index object applied to a second frame")):
         if d[k] == 0:
             probs.append(what)
